@@ -640,13 +640,13 @@ pub fn run(ctx: &Ctx) -> i32 {
         eprintln!("machinery error: verdict histogram is degenerate: {:?}", h);
         return 2;
     }
-    ctx.sample(json!({"case":{"entry":"HllSketch::deserialize","seed":"hll/lg8/Hll4/array/own","mutation":"auxCount = 0xffffffff","runs_in":"worker subprocess, single allocations > max(1 MiB, 64 x len) refused, 3 s watchdog; Ok values are then queried, updated, merged, re-serialized"}}));
+    ctx.sample(json!({"case":{"entry":"HllSketch::deserialize","seed":"hll/lg8/Hll4/array/own","mutation":"auxCount = 0xffffffff","runs_in":"worker subprocess, single allocations > max(8 MiB, 64 x len) refused, 3 s watchdog; Ok values are then queried, updated, merged, re-serialized"}}));
     ctx.sample(json!({"case":{"entry":"CountMinSketch<u8>::deserialize","seed":"cm/3x5","mutation":"truncated to 23 bytes"}}));
     let cov = json!({
         "exhaustive": true,
         "bounds": {
             "operators": "per seed and entry point: every truncation, extension by 1..8 bytes of 0x00/0xFF, every single-bit flip in the first 64 bytes, 5 byte values at every offset, every named field x boundary values (0,1,2,3,max,max-1,max/2,max/2+1,cur+-1, every power of two, float specials), pairs of named-field mutations; every seed unmodified to every foreign entry point; all inputs of length <= 1 (thorough: <= 2) and valid-header short strings to every entry point",
-            "limits": "single allocation <= max(1 MiB, 64 x input length) during deserialize (1 GiB host guard for the post-script on accepted values); 3 s per case",
+            "limits": "single allocation <= max(8 MiB, 64 x input length) during deserialize (1 GiB host guard for the post-script on accepted values); 3 s per case",
         },
         "verdicts": h,
     });
